@@ -1,0 +1,10 @@
+//go:build !verif
+
+package mangos
+
+// Verification hooks (see message_verif.go); empty without the "verif" build tag.
+
+func verifFree(*Message)         {}
+func verifRelease(*Message) bool { return false }
+func verifUse(*Message, string)  {}
+func verifNew(*Message, int)     {}
